@@ -3,7 +3,6 @@ package pebbles
 import (
 	"encoding/json"
 	"errors"
-	"net"
 	"sync"
 
 	"github.com/buildbuildio/pebbles/common/verifhook"
@@ -11,7 +10,6 @@ import (
 	"github.com/buildbuildio/pebbles/gqlerrors"
 	"github.com/buildbuildio/pebbles/planner"
 	"github.com/buildbuildio/pebbles/requests"
-	"github.com/gobwas/ws/wsutil"
 )
 
 type subscriptionEntry struct {
@@ -126,38 +124,33 @@ func (se *subscriptionEntry) prepareResponse(resp *requests.Response) *requests.
 	}
 }
 
+// Close asks the subscription to stop. It may be called from any goroutine, any number of
+// times, at any moment: closeCh is closed (never sent on) exactly once, under the mutex.
 func (se *subscriptionEntry) Close() {
-	defer verifhook.At("K.done", se.respCh)
-	verifhook.At("K.tryLock", se.respCh)
-	se.TryLock()
-	verifhook.At("K.readClosed", se.respCh)
-	isClosed := se.isClosed
-	verifhook.At("K.unlock", se.respCh)
-	se.Unlock()
-	if isClosed {
-		return
+	defer verifhook.At("C.done", se.respCh)
+	verifhook.At("C.lock", se.respCh)
+	se.Lock()
+	verifhook.At("C.check", se.respCh)
+	if !se.isClosed {
+		verifhook.At("C.set", se.respCh)
+		se.isClosed = true
+		verifhook.At("C.closeC", se.respCh)
+		close(se.closeCh)
 	}
-	verifhook.At("K.sendC", se.respCh)
-	se.closeCh <- struct{}{}
+	verifhook.At("C.unlock", se.respCh)
+	se.Unlock()
 }
 
-func (se *subscriptionEntry) Listen(conn net.Conn) {
+// Listen forwards upstream events to the client until the subscription is closed, the
+// upstream is done or the client connection fails. On exit it marks the entry closed and
+// releases the upstream goroutines by closing queryerCloseCh (only Listen closes it).
+// respCh is never closed: upstream senders select on queryerCloseCh instead.
+func (se *subscriptionEntry) Listen(conn *wsConn) {
 	defer verifhook.At("L.done", se.respCh)
 	defer func() {
-		verifhook.At("L.sendQ", se.respCh)
-		se.queryerCloseCh <- struct{}{}
-		verifhook.At("L.lock", se.respCh)
-		se.Lock()
-		defer se.Unlock()
-		defer verifhook.At("L.unlock", se.respCh)
+		se.Close()
 		verifhook.At("L.closeQ", se.respCh)
 		close(se.queryerCloseCh)
-		verifhook.At("L.closeC", se.respCh)
-		close(se.closeCh)
-		verifhook.At("L.closeR", se.respCh)
-		close(se.respCh)
-		verifhook.At("L.setClosed", se.respCh)
-		se.isClosed = true
 	}()
 
 	for {
@@ -177,7 +170,7 @@ func (se *subscriptionEntry) Listen(conn net.Conn) {
 				return
 			}
 			verifhook.At("L.write", se.respCh)
-			if err := wsutil.WriteServerText(conn, bResp); err != nil {
+			if err := conn.writeText(bResp); err != nil {
 				return
 			}
 		case <-se.closeCh:
